@@ -128,6 +128,7 @@ pub struct RoundInfo {
     pub mapref_same_proj: u32,
     pub invalidated: u32,
     pub deferred_writes: u32,
+    pub c03_void: u32,
 }
 
 pub struct Model {
@@ -142,6 +143,7 @@ pub struct Model {
     cutoff_calls: HashMap<Tag, Vec<(Val, Val)>>,
     late_invalid: Vec<Tag>,
     old_gen_this_round: Vec<Tag>,
+    c03_claim_void: bool,
     pub info: RoundInfo,
     /// contents of every var when the current round's stabilise was called
     call_contents: HashMap<Tag, Val>,
@@ -172,6 +174,7 @@ impl Model {
             cutoff_calls: HashMap::new(),
             late_invalid: vec![],
             old_gen_this_round: vec![],
+            c03_claim_void: false,
             info: RoundInfo::default(),
             call_contents: HashMap::new(),
             eval_memo: HashMap::new(),
@@ -615,6 +618,20 @@ impl Model {
         for t in order.iter() {
             self.resolve(*t);
         }
+        // C03 speaks about binds that are needed throughout the stabilise in which their
+        // left-hand side changes; a bind that only became needed in the middle of it may
+        // legitimately find nodes of its previous generation already recomputed
+        self.c03_claim_void = false;
+        let reran: Vec<Tag> = self.bind_runs.keys().copied().collect();
+        for b in reran {
+            if self.has(b) {
+                let n = self.node(b);
+                if n.created_round < r && !(n.at_call == r && n.seen == r && n.must) {
+                    self.c03_claim_void = true;
+                    self.info.c03_void += 1;
+                }
+            }
+        }
         // 5. nothing outside that set may have run; nothing invalid may have run
         let ran: Vec<Tag> = self.info.ran_tags.clone();
         for t in ran {
@@ -629,7 +646,7 @@ impl Model {
                 );
                 self.fail("C05", "ran-outside-cone", m);
             }
-            if !n.valid {
+            if !n.valid && !(n.invalid_round == Some(r) && self.c03_claim_void) {
                 let inv_now = n.invalid_round == Some(r);
                 let m = format!(
                     "round {r}: function of node #{t} ({:?}, created by {:?}) ran although the node is invalid{}",
